@@ -399,6 +399,121 @@ theorem pdf_loop_spec (ow : Bool) (sch : Sched) : ∀ (xs : List Item) (st : Pdf
             _ = (prodsOf popped ++ pending sch.rc pool1) ++ (_ ++ _) := by simp [List.append_assoc]
             _ ~ pending sch.rc st.pool ++ (_ ++ _) := List.Perm.append_right _ hpop
 
+theorem pdfSpecErr_congr (ow : Bool) (fs fs' : FS) : ∀ (as : List Item),
+    (∀ t ∈ as.filterMap texOf, Agree fs fs' t ∧ Agree fs fs' (pdfName t)) →
+    pdfSpecErr ow fs as = pdfSpecErr ow fs' as
+  | [], _ => rfl
+  | a :: as, h => by
+    have ha : pdfDecide ow fs a = pdfDecide ow fs' a :=
+      pdfDecide_congr ow fs fs' a (fun t ht => h t (by simp [ht]))
+    have hrest : ∀ t ∈ as.filterMap texOf, Agree fs fs' t ∧ Agree fs fs' (pdfName t) := by
+      intro t ht
+      apply h t
+      simp only [List.filterMap_cons]
+      split
+      · exact ht
+      · exact List.mem_cons_of_mem _ ht
+    unfold pdfSpecErr
+    rw [ha, pdfSpecErr_congr ow fs fs' as hrest]
+
+/-- **whether and with which exception the loop of `LaTeXToPDF.run` ends is decided by the selected values and
+the file system the run starts with** — not by the interleaved unselected values, not by the schedule -/
+theorem pdf_loop_err (ow : Bool) (sch : Sched) : ∀ (xs : List Item) (st : PdfSt),
+    KeysOK (st.pool.map (·.key)) xs →
+    (loop (pdfStep ow sch) st xs).err = pdfSpecErr ow st.fs (xs.filter pdfSel)
+  | [], st, _ => rfl
+  | v :: vs, st, hk => by
+    obtain ⟨_, hsub, hagree⟩ := popReturned_spec sch st.iter st.pool st.fs
+    generalize hr : popReturned sch st.iter st.fs st.pool = r at hsub hagree
+    obtain ⟨pool1, popped, fs1⟩ := r
+    simp only at hsub hagree
+    have hsubk : (pool1.map (·.key)).Sublist (st.pool.map (·.key)) := hsub.map _
+    have hcongr : KeysOK (st.pool.map (·.key)) vs →
+        pdfSpecErr ow fs1 (vs.filter pdfSel) = pdfSpecErr ow st.fs (vs.filter pdfSel) := by
+      intro hkv
+      apply pdfSpecErr_congr
+      intro t ht
+      obtain ⟨h1, h2⟩ := hkv.reads_not_pool t ht
+      exact ⟨hagree t h1, hagree (pdfName t) h2⟩
+    cases hs : pdfSel v
+    · have hstep : pdfStep ow sch st v =
+          ⟨popped ++ [.pass v], { st with fs := fs1, pool := pool1, iter := st.iter + 1 }, none⟩ := by
+        simp [pdfStep, hr, hs]
+      rw [loop_cons_ok _ _ _ _ _ _ hstep]
+      have hkv := hk.tail_unsel hs
+      have ih := pdf_loop_err ow sch vs { st with fs := fs1, pool := pool1, iter := st.iter + 1 }
+        (hkv.sublist hsubk)
+      simp only [List.filter_cons, hs, Bool.false_eq_true, if_false]
+      simp only at ih
+      rw [ih, hcongr hkv]
+    · cases ht : texOf v with
+      | none =>
+        obtain ⟨e, hd⟩ := pdfDecide_of_texOf_none ow fs1 v ht
+        obtain ⟨e', hd'⟩ := pdfDecide_of_texOf_none ow st.fs v ht
+        have hee : e = e' := by
+          have := pdfDecide_congr ow fs1 st.fs v (fun t h => by rw [ht] at h; cases h)
+          rw [hd, hd'] at this
+          injection this
+        have hstep : pdfStep ow sch st v =
+            ⟨popped, { st with fs := fs1, pool := pool1, iter := st.iter + 1 }, some e⟩ := by
+          simp [pdfStep, hr, hs, hd]
+        rw [loop_cons_err _ _ _ _ _ _ _ hstep]
+        simp [hs, pdfSpecErr, hd', hee]
+      | some t =>
+        have hreads := hk.reads_not_pool t (by rw [selTex_cons_sel v vs t hs ht]; simp)
+        have hdec : pdfDecide ow fs1 v = pdfDecide ow st.fs v := by
+          apply pdfDecide_congr
+          intro t' ht'
+          rw [ht] at ht'
+          injection ht' with ht'
+          subst ht'
+          exact ⟨hagree _ hreads.1, hagree _ hreads.2⟩
+        simp only [List.filter_cons, hs, if_true]
+        rw [show pdfSpecErr ow st.fs (v :: vs.filter pdfSel) =
+          (match pdfDecide ow st.fs v with
+            | .err e => some e
+            | _ => pdfSpecErr ow st.fs (vs.filter pdfSel)) from rfl]
+        rw [← hdec]
+        cases hd : pdfDecide ow fs1 v with
+        | err e =>
+          have hstep : pdfStep ow sch st v =
+              ⟨popped, { st with fs := fs1, pool := pool1, iter := st.iter + 1 }, some e⟩ := by
+            simp [pdfStep, hr, hs, hd]
+          rw [loop_cons_err _ _ _ _ _ _ _ hstep]
+        | skip y =>
+          have hstep : pdfStep ow sch st v =
+              ⟨popped ++ [.prod y], { st with fs := fs1, pool := pool1, iter := st.iter + 1 }, none⟩ := by
+            simp [pdfStep, hr, hs, hd]
+          rw [loop_cons_ok _ _ _ _ _ _ hstep]
+          have hkv := hk.tail_skip hs ht
+          have ih := pdf_loop_err ow sch vs { st with fs := fs1, pool := pool1, iter := st.iter + 1 }
+            (hkv.sublist hsubk)
+          simp only at ih
+          rw [ih, hcongr hkv]
+        | launch key tex ctx =>
+          obtain ⟨htex, hkey⟩ := pdfDecide_launch ow fs1 v key tex ctx hd
+          rw [ht] at htex
+          injection htex with htex
+          subst htex hkey
+          have hnot : (pdfName t) ∉ pool1.map (·.key) := fun hm => hreads.2 (hsubk.subset hm)
+          have hset : poolSet ⟨pdfName t, st.launched, t, ctx, v.tok⟩ pool1 =
+              pool1 ++ [⟨pdfName t, st.launched, t, ctx, v.tok⟩] := poolSet_of_not_mem _ _ hnot
+          have hstep : pdfStep ow sch st v =
+              ⟨popped, { fs := fs1, pool := pool1 ++ [⟨pdfName t, st.launched, t, ctx, v.tok⟩],
+                         launched := st.launched + 1, iter := st.iter + 1 }, none⟩ := by
+            simp [pdfStep, hr, hs, hd, hset]
+          rw [loop_cons_ok _ _ _ _ _ _ hstep]
+          have hkl := hk.tail_launch hs ht
+          have hkv := hk.tail_skip hs ht
+          have hsubk' : ((pool1 ++ [(⟨pdfName t, st.launched, t, ctx, v.tok⟩ : Proc)]).map (·.key)).Sublist
+              (st.pool.map (·.key) ++ [pdfName t]) := by
+            simpa using List.Sublist.append hsubk (List.Sublist.refl [pdfName t])
+          have ih := pdf_loop_err ow sch vs
+            { fs := fs1, pool := pool1 ++ [⟨pdfName t, st.launched, t, ctx, v.tok⟩],
+              launched := st.launched + 1, iter := st.iter + 1 } (hkl.sublist hsubk')
+          simp only at ih
+          rw [ih, hcongr hkv]
+
 /-! ## helper lemmas of `Props/C10.lean` (moved here to keep that file readable) -/
 
 section
